@@ -707,3 +707,83 @@ func (le *LockEngine) heldByAllCallers(fn *ssa.Function, key string, depth int) 
 	}
 	return true
 }
+
+// ModeAtOrByCallers: the mode in which key is held at ins — locally, or, when the function is an unexported helper
+// that is only called statically and does not take the lock itself, the weakest mode in which every call site holds it
+// (the "…WithoutLock" helper of a critical section). 0 when some caller does not hold it.
+func (le *LockEngine) ModeAtOrByCallers(ins ssa.Instruction, key string) int {
+	if m, ok := le.HeldAt(ins)[key]; ok {
+		return m
+	}
+	var rec func(fn *ssa.Function, key string, depth int) int
+	rec = func(fn *ssa.Function, key string, depth int) int {
+		if fn.Parent() != nil || depth >= 2 || (fn.Object() != nil && fn.Object().Exported()) {
+			return 0
+		}
+		sites := le.P.staticCallSites(fn)
+		if len(sites) == 0 {
+			return 0
+		}
+		min := 0
+		for _, s := range sites {
+			call, ok := s.(*ssa.Call)
+			if !ok {
+				return 0
+			}
+			tk, okT := translateKey(fn, key, call.Call.Args)
+			if !okT {
+				return 0
+			}
+			m, held := le.HeldAt(call)[tk]
+			if !held {
+				m = rec(call.Parent(), tk, depth+1)
+			}
+			if m == 0 {
+				return 0
+			}
+			if min == 0 || m < min {
+				min = m
+			}
+		}
+		return min
+	}
+	return rec(ins.Parent(), key, 0)
+}
+
+// heldWhereInvoked: for a function literal that its enclosing function hands to a pure invoker (x.withLock(func(){…})),
+// the locks held at the invocation inside the invoker, with the invoker's receiver renamed to the argument at the call.
+func (le *LockEngine) heldWhereInvoked(cl *ssa.Function) map[string]int {
+	out := map[string]int{}
+	if cl == nil || cl.Parent() == nil {
+		return out
+	}
+	allInstrs(cl.Parent(), func(ins ssa.Instruction) {
+		call, ok := ins.(*ssa.Call)
+		if !ok {
+			return
+		}
+		for _, ic := range invokedClosureArgs(le.P, &call.Call) {
+			if ic.closure != cl {
+				continue
+			}
+			for _, site := range ic.sites {
+				for k, m := range le.HeldAt(site) {
+					// translate helper-local key to the caller's naming through the receiver argument
+					name := k
+					if len(ic.helper.Params) > 0 && len(call.Call.Args) > 0 {
+						hp := ic.helper.Params[0].Name() + "."
+						if strings.HasPrefix(k, hp) {
+							if pa := pathOf(call.Call.Args[0]); pa != nil {
+								name = pa.String() + "." + strings.TrimPrefix(k, hp)
+							}
+						}
+					}
+					if old, seen := out[name]; !seen || m < old {
+						out[name] = m
+					}
+				}
+			}
+		}
+	})
+	return out
+}
